@@ -30,8 +30,7 @@ def Series.new (t : Array Int) (rows : Array Nat) (sup : Option (Array (Int × I
     | none => ⟨ts, rows, ISet.mk #[ts[0]!] #[ts[ts.size - 1]!] rfl⟩
     | some p =>
       let ix := jitrestrict ts (pairsSt p) (pairsEn p) (pairs_size p)
-      -- after `fix:` (constructor): no sample inside the support = the state of an object built from no sample
-      if ix.size = 0 then ⟨#[], #[], #[]⟩ else ⟨gatherI ts ix, gatherN rows ix, p⟩
+      ⟨gatherI ts ix, gatherN rows ix, p⟩
 
 /-- `x.restrict(ep)` for an IntervalSet `ep` (already canonical: it is an IntervalSet object):
 `_restrict` selects, then `_define_instance` runs the constructor on the selection -/
